@@ -3,7 +3,7 @@
 From Coq Require Import NArith List.
 From Rodbus Require Import Base.Outcome.
 From Rodbus Require Base.Frame Base.ClientTypes Model.ClientRequest Model.ClientTask Model.Format
-  Spec.ClientCodecSpec Spec.SystemClientSpec Model.SystemClient Proofs.C05Proofs Proofs.ClientSystemProofs.
+  Spec.Framing Spec.ClientCodecSpec Spec.SystemClientSpec Model.SystemClient Proofs.C05Proofs Proofs.ClientSystemProofs.
 Import ListNotations.
 Module F := Rodbus.Base.Frame.
 Module CT := Rodbus.Base.ClientTypes.
